@@ -580,6 +580,15 @@ func (e *Exec) enterLoop(li *loopInfo, st State) State {
 		e.env[phi] = v
 		li.phiVals[phi] = v
 	}
+	// call-log counters never decrease below zero
+	var tnames []string
+	for n := range c.tracks {
+		tnames = append(tnames, n)
+	}
+	sort.Strings(tnames)
+	for _, n := range tnames {
+		c.fact(c.le(c.idx(0), c.hget(heap, c.tracks[n].comp("n"))))
+	}
 	// 3. assume invariant
 	names = e.loopNames(li, func(p *ssa.Phi) Val { return e.env[p] })
 	sc = e.scope(heap, c.entry)
@@ -836,7 +845,11 @@ func (c *Ctx) loadStruct(h *Heap, ref string, t types.Type) string {
 		if isStruct(ft) {
 			fs = append(fs, c.loadStruct(h, c.subRef(t, i, ref), ft))
 		} else if isArray(ft) {
-			fs = append(fs, c.fresh("arrval", c.sortOf(ft)))
+			if ft.Underlying().(*types.Array).Len() == 0 {
+				fs = append(fs, c.zero(ft)) // a zero-length array has exactly one value
+			} else {
+				fs = append(fs, c.fresh("arrval", c.sortOf(ft)))
+			}
 		} else {
 			fs = append(fs, c.hsel(h, c.fieldComp(t, i), ref))
 		}
